@@ -87,6 +87,9 @@ func (sc *C14Scenario) exec(r *C14Run) {
 			r.ids, e = transform.GetExtendedSpatialIdsWithinRadiusOfLine(a, b, sc.Radius, sc.HZ, sc.VZ, true)
 		}
 		r.err = errStr(e)
+		own := r.ids
+		r.ids = append([]string(nil), own...)
+		scribbleStrings(own) // the caller owns the returned slice
 	}()
 	simrt.Active = false
 	simrt.SetRunOrder(nil)
@@ -547,6 +550,7 @@ func (w *Worker) runC14Case(idx int64) {
 	}
 	caseHash := simrt.DeepHash(sc)
 	nonAsc := 0
+	resetInputBufs()
 	simrt.RestoreGlobals() // every case starts from the package state of a fresh process
 	expensive := false
 	for i, r := range runs {
